@@ -318,14 +318,18 @@ ItemMatches(x, o) ==
     /\ (o.hasinfo => o.who \in x.names /\ o.dis \in x.dis)
 
 \* The observed view is the expected one with, at most, "may" items missing.
-\* (Both branches are tried: an optional item can look exactly like the
-\* obligatory one next to it -- two queries that differ only in the address
-\* bits anonymisation removes -- and only one of them is shown.)
-RECURSIVE ViewOK(_, _, _, _)
-ViewOK(xs, i, os, j) ==
-    IF i > Len(xs) THEN j > Len(os)
-    ELSE \/ j <= Len(os) /\ ItemMatches(xs[i], os[j]) /\ ViewOK(xs, i + 1, os, j + 1)
-         \/ xs[i].may /\ ViewOK(xs, i + 1, os, j)
+\* An optional item can look exactly like the obligatory one next to it (two
+\* queries that differ only in the address bits anonymisation removes) while
+\* only one of them is shown, so a greedy match is wrong and trying both
+\* branches is exponential: J is the set of positions of the observed view
+\* that the expected items before i can have been matched up to.
+RECURSIVE ViewFrom(_, _, _, _)
+ViewFrom(xs, i, os, J) ==
+    IF i > Len(xs) THEN (Len(os) + 1) \in J
+    ELSE ViewFrom(xs, i + 1, os,
+                  {j + 1 : j \in {k \in J : k <= Len(os) /\ ItemMatches(xs[i], os[k])}}
+                    \cup (IF xs[i].may THEN J ELSE {}))
+ViewOK(xs, i, os, j) == ViewFrom(xs, i, os, {j})
 LogOK(S, os) == \E xs \in {LogView(S)} : ViewOK(xs, 1, os, 1)
 
 \* ---------------------------------------------------- GET /control/stats
